@@ -5,11 +5,11 @@ from ..world import world_from, dec_val, enc_val
 from . import dep_common as D
 
 CLAIM = dict(
-    text="Coq theorems on the model of value-dependent dispatch (Model/Dep.v: isinstance of every constructor, the checks the codegen of each type EMITS, the if-chain / lookup-table / counting strategy selection of generate_dependent_dispatch, the per-rank dispatchers with fall-through of typemap.resolve): the emitted check of every type computes isinstance -- for a value-dependent type on the instances of its bound, and under | and & each dependent member is wrapped in its bound test, so a user condition is never reached outside its bound (C10_emit_is_instance, any nesting; full since the repairs of KF-14 / KF-50 / KF-51); whatever strategy is selected, a handler returned by a rank's dispatcher has every one of its emitted checks true (C10_chain_sound, C10_count_sound); under counting the dispatcher returns the unique handler whose conjunction holds, falls through when none holds and raises the ambiguity when several hold (C10_count_exact); the if-chain returns the first handler whose conjunction holds (C10_chain_first) and equals counting when the conditions are exclusive (C10_chain_is_count_when_exclusive); a value-dependent type with class bound b is strictly more specific, from both sides, than every class comparable with b (C10_preferred_over_bound_classes); refuted: call_next from a method of a dependent rank skips its same-rank siblings (C10_next_sibling_refuted, KF-08). Tie to /repo: generated mixtures of dependent and static methods (user predicates with random truth tables that log every value they are asked about and answer with truthy / falsy non-bools, the built-in value types, | and & combinations, 1-2 positions, keyword-only dependent parameters, priorities) are run over a value corpus through the real Ovld -- as a plain function and as the methods of one class body -- and through the extracted model: the method entered / error kind must agree exactly; the property oracle (independent of the model) checks on the implementation that every entered method's parameters are isinstance of their annotations, that every predicate was only asked about instances of its bound, and compares with a Python reading of the documented rule. Which dependent methods are 'otherwise unordered': for two parametrised conditions on the same bound the order is exactly what their typing.Any wildcards say (C10_same_bound_order), that comparison is FuncDependentType.__lt__ as regenerated from /repo's source on every run (C10_leaf_wildcards), it is slot-wise -- strictly more specific iff the other has a wildcard wherever this one has one and one more somewhere (C10_wildcards_slotwise) -- and crossing wildcards order neither way (C10_wildcards_crossing_unordered), so both holding is the ambiguity of C10_count_exact; directed programs with a three-parameter user condition run every such pair through the real dispatch.",
+    text="Coq theorems on the model of value-dependent dispatch (Model/Dep.v: isinstance of every constructor, the checks the codegen of each type EMITS, the if-chain / lookup-table / counting strategy selection of generate_dependent_dispatch, the per-rank dispatchers with fall-through of typemap.resolve): the emitted check of every type computes isinstance -- for a value-dependent type on the instances of its bound, and under | and & each dependent member is wrapped in its bound test, so a user condition is never reached outside its bound (C10_emit_is_instance, any nesting; full since the repairs of KF-14 / KF-50 / KF-51); whatever strategy is selected, a handler returned by a rank's dispatcher has every one of its emitted checks true (C10_chain_sound, C10_count_sound); under counting the dispatcher returns the unique handler whose conjunction holds, falls through when none holds and raises the ambiguity when several hold (C10_count_exact); the if-chain returns the first handler whose conjunction holds (C10_chain_first) and equals counting when the conditions are exclusive (C10_chain_is_count_when_exclusive); a value-dependent type with class bound b is strictly more specific, from both sides, than every class comparable with b (C10_preferred_over_bound_classes); refuted: call_next from a method of a dependent rank skips its same-rank siblings (C10_next_sibling_refuted, KF-08). Tie to /repo: generated mixtures of dependent and static methods (user predicates with random truth tables that log every value they are asked about and answer with truthy / falsy non-bools, the built-in value types, | and & combinations, 1-2 positions, keyword-only dependent parameters, priorities) are run over a value corpus through the real Ovld -- as a plain function and as the methods of one class body -- and through the extracted model: the method entered / error kind must agree exactly; the property oracle (independent of the model) checks on the implementation that every entered method's parameters are isinstance of their annotations, that every predicate was only asked about instances of its bound, and compares with a Python reading of the documented rule. Which dependent methods are 'otherwise unordered': for two parametrised conditions on the same bound the order is exactly what their typing.Any wildcards say (C10_same_bound_order), that comparison is FuncDependentType.__lt__ as regenerated from /repo's source on every run (C10_leaf_wildcards), it is slot-wise -- strictly more specific iff the other has a wildcard wherever this one has one and one more somewhere (C10_wildcards_slotwise) -- and crossing wildcards order neither way (C10_wildcards_crossing_unordered), so both holding is the ambiguity of C10_count_exact; directed programs with a three-parameter user condition run every such pair through the real dispatch. Which generated strategy serves a rank: the per-position decision for Literal-like types (shared key -> counting, fewer than four types -> if-chain, else table) and the final choice (table / if-chain / counting) are regenerated from recode.py on every run and proved to be the decisions the model's choose_strategy is built from (C10_leaf_keyable, C10_leaf_final_choice).",
     note="Trusted: as C02, plus the value encodings and the truth tables of user predicates (tables are data for the model; the real predicates are generated from the same tables). Regexp is modelled for literal patterns with ^ / $ anchors only. Membership tests follow Python's == (True == 1): Model/Ty.v val_pyeq.",
     technique="Coq proof (strategy soundness, emitted check vs isinstance) + differential correspondence over a value corpus", design="6 C10")
 
-THEOREMS = ["C10_emit_is_instance", "C10_count_exact", "C10_chain_first", "C10_chain_is_count_when_exclusive", "C10_chain_sound", "C10_count_sound", "C10_preferred_over_bound_classes", "C10_next_sibling_refuted", "C10_leaf_wildcards", "C10_same_bound_order", "C10_wildcards_slotwise", "C10_wildcards_crossing_unordered"]
+THEOREMS = ["C10_emit_is_instance", "C10_count_exact", "C10_chain_first", "C10_chain_is_count_when_exclusive", "C10_chain_sound", "C10_count_sound", "C10_preferred_over_bound_classes", "C10_next_sibling_refuted", "C10_leaf_wildcards", "C10_same_bound_order", "C10_wildcards_slotwise", "C10_wildcards_crossing_unordered", "C10_leaf_keyable", "C10_leaf_final_choice"]
 ASSUMPTIONS = ["user predicates are total on the corpus (they are table lookups) so that only the library's own checks can raise"]
 
 
